@@ -7,6 +7,12 @@ LEAN_MODULES = ["ShootVerif.Props.C09"]
 USES_FACTS = False
 DRIVER = "shootmodel_map"
 
+MANIFEST = dict(
+    text="Lean 4 theorems over the path tables (prepareReadPaths, nilCheckRead, nilCheckWrite, CoveredBy) and the guarded statements of mapper.tmpl evaluated in Except: for EVERY nil assignment to the reading side and every receiver state, ToX/FromX do not panic and compute the ideal result (each statement executed completely or skipped), FromX is independent of the receiver, nil in gives nil out; finding region F_ptrMapper (mapper type embedded by pointer) with witness theorem. Model tied to the code by executing the generated ToX/FromX under recover() for all 2^k nil masks (k<=7 quick, <=10 thorough, sampled above) x clean/dirty/nil receiver and comparing every result table.",
+    note="Lean kernel + standard axioms; WF09 contains the decidable closure clauses of the emitted guard/allocation lists (outer pointer first), evaluated per input by the driver rather than derived from sort.Strings; correspondence via vo.ObserveMap.",
+    technique="Lean 4 proof (guard-chain / allocation-chain lemmas, statement = ideal statement) + exhaustive nil-mask execution of generated mappers",
+    design="5/C09")
+
 KEYS_PREFIX = ("toN:", "fromN:", "reset:", "to:nilrecv", "from:nilarg", "compile", "exit")
 
 BASE = dict(kinds=["same"] * 3 + ["conv"] * 2 + ["func"] * 3 + ["sub"] * 4 + ["each"] * 4 + ["none"],
@@ -37,6 +43,8 @@ def shaped(g):
     out.append(("way-to", g.pair(**dict(BASE, flags={"way": "to"}))))
     out.append(("way-from", g.pair(**dict(BASE, flags={"way": "from"}))))
     out.append(("flat", g.pair(**dict(BASE, embeds=0.0))))
+    for i in range(3):
+        out.append(("manual-hooks", g.pair(**dict(BASE, manual=1.0))))
     # finding region: mapper embedded by pointer, methods used
     out.append(("ptr-mapper", g.pair(**dict(BASE, kinds=["func"], n=(2, 3), mapper_ptr=1.0, flags={"way": "both"}))))
     out.append(("ptr-mapper-idle", g.pair(**dict(BASE, kinds=["same", "sub"], n=(2, 3), mapper_ptr=1.0, mapper_idle=1.0, func_over=0.0))))
@@ -51,6 +59,7 @@ def gen_cases(ctx):
         o = dict(BASE)
         if ctx.rng.random() < 0.12:
             o["mapper_ptr"] = 1.0
+        o["manual"] = 0.2
         specs.append(("random", g.pair(**o)))
     cases = []
     for i, (feat, sp) in enumerate(specs):
